@@ -83,6 +83,24 @@ Theorem C06_vm_refines_list_machine : forall (C : codec) (dbg : bool), codec_ok 
   VM.run C dbg cvi cvt ic tc ac stdt stdc ops = (rev (lout l'), false).
 Proof. exact script_refines. Qed.
 
+(* inserting beyond the end panics, in any history *)
+Theorem C06_insert_beyond_end_panics_in_any_history :
+  forall (C : codec) (dbg : bool), codec_ok C ->
+  forall (cvi cvt : N -> res N) (ic tc ac : codec) (stdt : list tres) (stdc : list (N * cres))
+         (st : state) (l : lstate) (r i : N) (d : sd) (xs ys : list N),
+  abs C st l -> lget l r = Some xs -> lslice l d = Some ys -> length xs < N.to_nat i ->
+  step C dbg cvi cvt ic tc ac stdt stdc st (OInsert r i d) = None.
+Proof. exact insert_beyond_end_panics. Qed.
+
+(* on every script the list machine accepts, the debug and the release build observe the same *)
+Theorem C06_build_profiles_agree :
+  forall (C : codec), codec_ok C ->
+  forall (cvi cvt : N -> res N) (ic tc ac : codec) (stdt : list tres) (stdc : list (N * cres))
+         (ops : list op) (l' : lstate),
+  lm_run C cvi cvt ic tc ac stdt stdc {| lregs := []; lk := None; lct := []; lout := [] |} ops = Some l' ->
+  VM.run C true cvi cvt ic tc ac stdt stdc ops = VM.run C false cvi cvt ic tc ac stdt stdc ops.
+Proof. exact profiles_agree. Qed.
+
 (* non-vacuity: a concrete history *)
 Example C06_history_example :
   lrun [1; 2; 3]%N [EPush 0%N; EInsert 1 [3; 3]%N; ERemove 0 0 2; ETruncate 3; EPrepend [2]%N]
@@ -101,3 +119,5 @@ Print Assumptions C06_collect.
 Print Assumptions C06_any_history.
 Print Assumptions C06_history_length_and_symbols.
 Print Assumptions C06_vm_refines_list_machine.
+Print Assumptions C06_insert_beyond_end_panics_in_any_history.
+Print Assumptions C06_build_profiles_agree.
